@@ -77,77 +77,12 @@ def run(repo, rep, tier):
     param = 'program_retval'
     if param not in [a.arg for a in oa.args.args]:
         raise AnalysisError('status parameter %s of output_algorithm vanished' % param)
-    loops = [n for n in walk_no_nested(oa) if isinstance(n, ast.For) and isinstance(n.target, ast.Tuple) and len(n.target.elts) == 2 and unparse(n.iter) == 'texts']
-    if len(loops) != 1:
-        raise AnalysisError('expected exactly one loop over the (level, note) list in output_algorithm, found %d' % len(loops))
-    loop = loops[0]
-    lvl = loop.target.elts[0].id
-    txtv = loop.target.elts[1].id
-    texts_var = unparse(loop.iter)
     var = param
-    # tracked names: closure of names feeding the return expressions through status-like assignments
-    tracked = set()
-    work = set()
-    for r in walk_no_nested(oa):
-        if isinstance(r, ast.Return) and r.value is not None:
-            work |= {x.id for x in ast.walk(r.value) if isinstance(x, ast.Name)}
-    while work:
-        nm = work.pop()
-        if nm in tracked or nm in ('max', 'min', 'exitcodes'):
-            continue
-        tracked.add(nm)
-        for n in walk_no_nested(oa):
-            if isinstance(n, (ast.Assign, ast.AugAssign)) and any(unparse(t) == nm for t in (n.targets if isinstance(n, ast.Assign) else [n.target])):
-                work |= {x.id for x in ast.walk(n.value) if isinstance(x, ast.Name)} - tracked
-    tracked -= {lvl, txtv}
-    rank = {codes['GOOD']: 0, codes['WARNING']: 1, codes['FAILURE']: 2}
-    lvl_rank = {'info': 0, 'warn': 1, 'fail': 2}
-    inv = {v: k for k, v in rank.items()}
-    import itertools as _it
-    from sa.abseval import explore
-    seqs = [()] + [(a,) for a in ('info', 'warn', 'fail')] + list(_it.product(('info', 'warn', 'fail'), repeat=2))
-    table = []
-    bad = []
-    for s0 in (codes['GOOD'], codes['WARNING'], codes['FAILURE']):
-        for seq in seqs:
-            env = dict(cenv)
-            env[param] = s0
-            for t_ in tracked:
-                env.setdefault(t_, None)
-            env['out.verbose'] = False
-            bindings = [{lvl: L, txtv: 'note', 'text': 'note'} for L in seq]
-            try:
-                outs = explore(oa.body, env, tracked | {'first', 'use_good_for_all'}, loops={texts_var: bindings})
-            except Unknown as e:
-                raise AnalysisError('status fold of output_algorithm not interpretable: %s' % e)
-            rep.evals(len(outs))
-            for e2, outcome in outs:
-                if outcome != 'return':
-                    bad.append((s0, seq, 'path ends with %s' % outcome, None))
-                    continue
-                got = e2.get('<return>')
-                folded = texts_var in e2.get('<loops_done>', ())
-                want = inv[max([rank[s0]] + [lvl_rank[L] for L in seq])] if folded else s0
-                table.append({'in': s0, 'levels': list(seq), 'folded': folded, 'out': got if isinstance(got, int) else str(got)})
-                if got != want:
-                    bad.append((s0, seq, got, want, folded))
-    rep.check('fold', 'output_algorithm returns max(incoming status, note levels) on every path (%d abstract paths); the empty-name path returns the incoming status' % len(table), not bad, loop,
-              'severity fold broken: incoming status %s with notes %s %s returns %r, expected %r' % ((bad[0][0], list(bad[0][1]), '(folded)' if len(bad[0]) > 4 and bad[0][4] else '(early return before the notes are folded)', bad[0][2], bad[0][3]) if bad else (0, [], '', 0, 0)),
-              sample={'rule': 'fold', 'paths': len(table), 'examples': table[:6]})
-    # the level values that can occur are exactly the three literals
-    lit_levels = set()
-    for n in walk_no_nested(oa):
-        if isinstance(n, ast.Call) and isinstance(n.func, ast.Attribute) and n.func.attr == 'append' and unparse(n.func.value) == texts_var and n.args and isinstance(n.args[0], ast.Tuple):
-            first = n.args[0].elts[0]
-            if isinstance(first, ast.Constant):
-                lit_levels.add(first.value)
-            elif isinstance(first, ast.Name):
-                for f in walk_no_nested(oa):
-                    if isinstance(f, ast.For) and first.id in [x.id for x in ast.walk(f.target) if isinstance(x, ast.Name)] and isinstance(f.iter, ast.Call) and f.iter.args and isinstance(f.iter.args[0], ast.List):
-                        lit_levels |= {e.value for e in f.iter.args[0].elts if isinstance(e, ast.Constant)}
-            else:
-                raise AnalysisError('level appended to %s is neither a literal nor the enumerated level: %s' % (texts_var, unparse(n)))
-    rep.check('fold', 'levels appended to the note list are within {fail,warn,info}', lit_levels and lit_levels <= {'fail', 'warn', 'info'}, loop, 'note list may hold a level outside fail/warn/info: %s' % sorted(lit_levels))
+    # the per-name renderer is interpreted on a family of synthetic table entries (every row shape), names, size annotations, presentation flags and
+    # incoming statuses (props/_renderer.py): it must return max(incoming, levels of the name's notes) in the order GOOD < WARNING < FAILURE, and the
+    # incoming status unchanged for an empty name
+    from props import _renderer
+    _renderer.verify(repo, rep, ['fold', 'noninterference'], {'fold': 'fold', 'noninterference': 'independence'})
 
     oas = repo.func('ssh_audit', 'output_algorithms')
     # ---- rule 3: option independence ---------------------------------------------------------------
@@ -157,7 +92,7 @@ def run(repo, rep, tier):
 
     def forbidden(R):
         return {r for r in R if r in FORBIDDEN_NAMES or any(r == p or r.startswith(p) for p in FORBIDDEN_PREFIXES)}
-    for fname, fnode, R in _status.status_slices(repo, var):
+    for fname, fnode, R in _status.status_slices(repo, var, oa_by_model=True):
         bad = forbidden(R)
         rep.check('independence', 'status slice of %s reads no presentation option' % fname, not bad, fnode, 'status depends on presentation state: %s' % sorted(bad), sample={'rule': 'independence', 'function': fname, 'slice': sorted(R)})
     outf = repo.func('ssh_audit', 'output')
@@ -200,7 +135,26 @@ def run(repo, rep, tier):
             rep.check('thread', '%s: status is a parameter and never re-initialised' % qual, is_param and inits == 0, f, '%s re-initialises the status it was given' % qual)
         rep.floor('thread', 'fold calls in %s' % qual, ncalls, min_calls)
         return f, v
-    threading('ssh_audit', 'output', 7, True)
+    # output(), by interpretation (props/_sections.py): on every path the first section receives GOOD, every later section the status the previous one
+    # returned, and the function returns the status of the last section -- however the section calls are written (one by one, table + loop, **mapping)
+    from props import _sections, _renderer
+    good = _renderer.codes(repo)['exitcodes.GOOD']
+    for proto in (2, 1):
+        for json_mode in (False, True):
+            for res in _sections.run_output(repo, proto, json_mode):
+                rep.evals()
+                secs = res['sections']
+                rep.floor('thread', 'fold calls in output (SSH-%d)' % proto, len(secs), 3)
+                prev = good
+                bad = None
+                for k, x in enumerate(secs):
+                    if not (x['status_in'] == prev and type(x['status_in']) is type(prev)) and bad is None:
+                        bad = 'section %d (%s) receives %r instead of %s: the fold restarts / findings folded so far are lost' % (k + 1, x['alg_type'], x['status_in'], 'the running status %r' % prev if k else 'GOOD')
+                    prev = x['status_out']
+                if bad is None and not (res['returned'] == prev and type(res['returned']) is type(prev)):
+                    bad = 'output() returns %r instead of the status of the last section' % (res['returned'],)
+                rep.check('thread', 'output(): status threaded through every section and returned (SSH-%d%s)' % (proto, ', JSON' if json_mode else ''), bad is None, secs[0]['node'] if secs else outf,
+                          'status threading broken in output(): %s' % bad, stmt='output() status threading SSH-%d' % proto)
     # output_algorithms, by abstract interpretation (sa/listinterp.py): the per-name renderer is summarised as an opaque fold step
     # step(name, status) -> fresh status token; for name lists of length 0..3 every path (section empty or not, JSON or not) must return
     # step(a_n, ... step(a_1, incoming)) -- every name folded exactly once, in order, starting from the incoming status, nothing dropped.
